@@ -370,6 +370,14 @@ func c04ScriptedUpload(e *Env) {
 		e.Wait()
 		w.Pump()
 	}
+	if tr == TrUDP && t.Chance(1, 5) {
+		// a datagram longer than the connection's read buffer (MTU 1472): a single message with a 1500 byte body. It
+		// cannot be received; what must not happen is that its head is taken for the whole.
+		e.Fault("dgram.longerThanTheReadBuffer")
+		e.Probe("upload.datagramLongerThanReadBuffer")
+		mid++
+		send(&WMsg{Type: TNON, Code: 2, MID: mid, Token: []byte{0x5f, 0x5f}, Opts: []WOpt{{Num: OptURIPath, Val: []byte("up")}, {Num: OptContentFormat, Val: []byte{42}}}, Payload: Body(499, 1500)}, "a single message with a 1500 byte body")
+	}
 	sentComplete := []bool{false, false}
 	for bi := 0; bi < 2; bi++ {
 		tok := []byte{0x51, byte(bi)}
